@@ -63,6 +63,44 @@ fn main() {
                     std::process::exit(2)
                 }
             };
+            // dev aid: VERIF_DERIVE=<index> replaces the case list by finer-grained cases derived from
+            // one Learn case (forward / backward / single step per sample), to localise a disagreement
+            let cases = match std::env::var("VERIF_DERIVE").ok().and_then(|v| v.parse::<usize>().ok()) {
+                Some(k) if k < cases.len() => {
+                    let mut d: Vec<(String, case::Case)> = vec![];
+                    if let case::Case::Net(spec, case::NetCmd::Learn { data, batch, epochs, .. }) = &cases[k].1 {
+                        for (i, (x, t)) in data.iter().enumerate() {
+                            d.push((format!("fwd{}", i), case::Case::Net(spec.clone(), case::NetCmd::Forward(x.clone()))));
+                            d.push((format!("bwd{}", i), case::Case::Net(spec.clone(), case::NetCmd::Backward(x.clone(), t.clone()))));
+                            d.push((format!("step{}", i), case::Case::Net(spec.clone(), case::NetCmd::Step(x.clone(), t.clone(), 1))));
+                        }
+                        for k in 1..=data.len() {
+                            d.push((format!("learn-e1-b1-first{}", k), case::Case::Net(spec.clone(), case::NetCmd::Learn { data: data[..k].to_vec(), val: None, batch: 1, epochs: 1 })));
+                        }
+                        {
+                            // the same without dropout
+                            let mut nd = spec.clone();
+                            for l in nd.layers.iter_mut() {
+                                if let spec::LayerSpec::One(s) = l {
+                                    match s {
+                                        spec::Simple::Dense { dropout, .. } | spec::Simple::Conv { dropout, .. } | spec::Simple::Deconv { dropout, .. } => *dropout = None,
+                                        _ => (),
+                                    }
+                                }
+                            }
+                            for k in 1..=data.len().min(4) {
+                                d.push((format!("nodropout-first{}", k), case::Case::Net(nd.clone(), case::NetCmd::Learn { data: data[..k].to_vec(), val: None, batch: 1, epochs: 1 })));
+                            }
+                        }
+                        for e in 1..=*epochs {
+                            d.push((format!("learn-e{}", e), case::Case::Net(spec.clone(), case::NetCmd::Learn { data: data.clone(), val: None, batch: *batch, epochs: e })));
+                            d.push((format!("learn-e{}-b1", e), case::Case::Net(spec.clone(), case::NetCmd::Learn { data: data.clone(), val: None, batch: 1, epochs: e })));
+                        }
+                    }
+                    d
+                }
+                _ => cases,
+            };
             fals.write(&outdir.join("falsify.jsonl"));
             let mut fc = std::io::BufWriter::new(std::fs::File::create(outdir.join("cases.txt")).unwrap());
             let mut fi = std::io::BufWriter::new(std::fs::File::create(outdir.join("impl.txt")).unwrap());
